@@ -1,2 +1,79 @@
+import PGM.Proofs.FlowSound
+import PGM.Generated.MechProgs
+/-!
+# C06 — private data reaches mechanism output only through the DP primitives
+
+`PGM/Generated/MechProgs.lean` is regenerated on every run by `tools/py2flow.py` from the bodies of
+`MST`, `AIM.run`, `mwem_pgm` (once per adjacency notion) and `adagrid`, as terms of the small
+language `PGM.Flow.Stmt` in which every non-primitive computation is an opaque deterministic
+function.  `flow_sound` (proved once, for every program, every interpretation of the opaque
+functions, every pair of private inputs and every primitive oracle) says that an accepted program
+performs the same sequence of releases / selections with the same public scales and parameters and
+returns the same value on any two datasets once the primitives' outcomes are identical.  The
+`*_flow_ok` theorems below are the obligations re-checked against the current source.
+-/
 namespace PGM.C06
+open PGM.Flow PGM.Gen.Flow
+
+/-- soundness of the flow check (non-interference up to the primitives' outcomes) -/
+theorem flow_sound {Val : Type} (I : Interp Val) (oracle : Nat → Val) (cf : Nat) (Γ Γ' : Env) (p : Stmt)
+    (hflow : flow cf Γ p = some Γ') (fuel₁ fuel₂ : Nat) (s₁ s₂ t₁ t₂ : State Val)
+    (hlow : LowEq Γ s₁ s₂)
+    (h₁ : exec I oracle fuel₁ p s₁ = some t₁) (h₂ : exec I oracle fuel₂ p s₂ = some t₂) :
+    LowEq Γ' t₁ t₂ :=
+  Flow.flow_sound I oracle cf Γ Γ' p hflow fuel₁ fuel₂ s₁ s₂ t₁ t₂ hlow h₁ h₂
+
+theorem mst_flow_ok : flowOK 200 mstEnv mstProg = true := by decide +kernel
+theorem aim_flow_ok : flowOK 200 aimEnv aimProg = true := by decide +kernel
+theorem mwem_bounded_flow_ok : flowOK 200 mwemBoundedEnv mwemBoundedProg = true := by decide +kernel
+theorem mwem_unbounded_flow_ok : flowOK 200 mwemUnboundedEnv mwemUnboundedProg = true := by decide +kernel
+theorem adagrid_flow_ok : flowOK 200 adagridEnv adagridProg = true := by decide +kernel
+
+/-- **MST**: for every interpretation of the opaque computations, every two datasets (the `H`
+variables differ arbitrarily, the `L` inputs — ε, δ, the domain — agree) and every sequence of
+primitive outcomes, the two executions perform the same releases and selections with the same
+scales and return the same data -/
+theorem mst_noninterference {Val : Type} (I : Interp Val) (oracle : Nat → Val) (fuel₁ fuel₂ : Nat)
+    (env₁ env₂ : String → Val) (hpub : ∀ x, mstEnv.get x = .L → env₁ x = env₂ x) (t₁ t₂ : State Val)
+    (h₁ : exec I oracle fuel₁ mstProg ⟨env₁, 0, [], none⟩ = some t₁)
+    (h₂ : exec I oracle fuel₂ mstProg ⟨env₂, 0, [], none⟩ = some t₂) :
+    t₁.trace = t₂.trace ∧ t₁.ret = t₂.ret :=
+  Flow.flow_sound_observable I oracle 200 mstEnv mstProg mst_flow_ok fuel₁ fuel₂ env₁ env₂ hpub t₁ t₂ h₁ h₂
+
+theorem aim_noninterference {Val : Type} (I : Interp Val) (oracle : Nat → Val) (fuel₁ fuel₂ : Nat)
+    (env₁ env₂ : String → Val) (hpub : ∀ x, aimEnv.get x = .L → env₁ x = env₂ x) (t₁ t₂ : State Val)
+    (h₁ : exec I oracle fuel₁ aimProg ⟨env₁, 0, [], none⟩ = some t₁)
+    (h₂ : exec I oracle fuel₂ aimProg ⟨env₂, 0, [], none⟩ = some t₂) :
+    t₁.trace = t₂.trace ∧ t₁.ret = t₂.ret :=
+  Flow.flow_sound_observable I oracle 200 aimEnv aimProg aim_flow_ok fuel₁ fuel₂ env₁ env₂ hpub t₁ t₂ h₁ h₂
+
+theorem mwem_bounded_noninterference {Val : Type} (I : Interp Val) (oracle : Nat → Val) (fuel₁ fuel₂ : Nat)
+    (env₁ env₂ : String → Val) (hpub : ∀ x, mwemBoundedEnv.get x = .L → env₁ x = env₂ x) (t₁ t₂ : State Val)
+    (h₁ : exec I oracle fuel₁ mwemBoundedProg ⟨env₁, 0, [], none⟩ = some t₁)
+    (h₂ : exec I oracle fuel₂ mwemBoundedProg ⟨env₂, 0, [], none⟩ = some t₂) :
+    t₁.trace = t₂.trace ∧ t₁.ret = t₂.ret :=
+  Flow.flow_sound_observable I oracle 200 mwemBoundedEnv mwemBoundedProg mwem_bounded_flow_ok fuel₁ fuel₂ env₁ env₂ hpub t₁ t₂ h₁ h₂
+
+theorem mwem_unbounded_noninterference {Val : Type} (I : Interp Val) (oracle : Nat → Val) (fuel₁ fuel₂ : Nat)
+    (env₁ env₂ : String → Val) (hpub : ∀ x, mwemUnboundedEnv.get x = .L → env₁ x = env₂ x) (t₁ t₂ : State Val)
+    (h₁ : exec I oracle fuel₁ mwemUnboundedProg ⟨env₁, 0, [], none⟩ = some t₁)
+    (h₂ : exec I oracle fuel₂ mwemUnboundedProg ⟨env₂, 0, [], none⟩ = some t₂) :
+    t₁.trace = t₂.trace ∧ t₁.ret = t₂.ret :=
+  Flow.flow_sound_observable I oracle 200 mwemUnboundedEnv mwemUnboundedProg mwem_unbounded_flow_ok fuel₁ fuel₂ env₁ env₂ hpub t₁ t₂ h₁ h₂
+
+theorem adagrid_noninterference {Val : Type} (I : Interp Val) (oracle : Nat → Val) (fuel₁ fuel₂ : Nat)
+    (env₁ env₂ : String → Val) (hpub : ∀ x, adagridEnv.get x = .L → env₁ x = env₂ x) (t₁ t₂ : State Val)
+    (h₁ : exec I oracle fuel₁ adagridProg ⟨env₁, 0, [], none⟩ = some t₁)
+    (h₂ : exec I oracle fuel₂ adagridProg ⟨env₂, 0, [], none⟩ = some t₂) :
+    t₁.trace = t₂.trace ∧ t₁.ret = t₂.ret :=
+  Flow.flow_sound_observable I oracle 200 adagridEnv adagridProg adagrid_flow_ok fuel₁ fuel₂ env₁ env₂ hpub t₁ t₂ h₁ h₂
+
+/-- the check is not vacuous: a program that releases with a data-dependent scale is rejected -/
+example : flowOK 10 [("data", .H), ("eps", .L)]
+    (.release "y" (.var "data") (.call "scale" [.var "eps", .var "data"])) = false := by decide
+
+/-- … and so is one whose control flow depends on the data -/
+example : flowOK 10 [("data", .H)]
+    (.ite (.call "gt" [.var "data"]) (.release "y" (.var "data") (.lit "1")) .skip) = false := by decide
+
 end PGM.C06
